@@ -352,7 +352,10 @@ def canon(t):
     if k == "p":
         return ("p", t[2])
     if k == "f":
-        return ("f", canon(t[1]), t[3] if t[3] is not None else t[2])
+        name = t[3] if t[3] is not None else t[2]
+        if isinstance(name, str) and name.isdigit():
+            name = int(name)
+        return ("f", canon(t[1]), name)
     if k == "bin":
         a, b = canon(t[2]), canon(t[3])
         op = t[1].replace("WithOverflow", "").replace("Unchecked", "")
